@@ -196,6 +196,9 @@ if __name__ == "__main__":
     elif cmd == "intake3":
         for p in sys.argv[2:]:
             intake(p, "/tmp/w3_%s/seed_out" % p, "CD")
+    elif cmd == "intake4":
+        for p in sys.argv[2:]:
+            intake(p, "/tmp/w4_%s/seed_out" % p, "EF")
     elif cmd == "confirm":
         for s in sys.argv[2:]:
             confirm(s)
